@@ -148,7 +148,7 @@ template <typename Number> bool congruence<Number>::is_bottom() const {
 }
 
 template <typename Number> bool congruence<Number>::is_top() const {
-  return m_a == 1;
+  return !m_is_bottom && m_a == 1;
 }
 
 template <typename Number>
@@ -184,18 +184,13 @@ bool congruence<Number>::operator<=(const congruence<Number> &o) const {
     return true;
   } else if (o.is_bottom()) {
     return false;
-  } else if (m_a == 0 && o.m_a == 0) {
-    return (m_b == o.m_b);
-  } else if (m_a == 0) {
-    if ((m_b % o.m_a) == (o.m_b % o.m_a)) {
-      return true;
-    }
   } else if (o.m_a == 0) {
-    if (m_b % m_a == (o.m_b % m_a)) {
-      return false;
-    }
+    // o is a singleton: only the same singleton is included in it
+    return (m_a == 0 && m_b == o.m_b);
+  } else {
+    // aZ+b <= a'Z+b' iff a' divides a and b-b' (also if a == 0)
+    return (m_a % o.m_a == 0) && ((m_b - o.m_b) % o.m_a == 0);
   }
-  return (m_a % o.m_a == 0) && (m_b % o.m_a == o.m_b % o.m_a);
 }
 
 template <typename Number>
